@@ -235,6 +235,12 @@ fn run_config(c: &Config) -> Vec<(String, String)> {
                 v("hooks|handled-did-not-short-circuit|before", format!("{ctx}: step {k}: {} before-hooks ran after one returned Handled", bseq.len() - i - 1));
             }
         }
+        // (3b) a hook that stops execution ends its phase like one that handles the event
+        for (i, e) in bseq.iter().enumerate() {
+            if e.outcome == Outcome::Stop && i + 1 != bseq.len() {
+                v("hooks|stop-did-not-short-circuit|before", format!("{ctx}: step {k}: {} before-hooks ran after one had stopped execution", bseq.len() - i - 1));
+            }
+        }
         // (2) must-run
         if !bseq.iter().any(|e| terminator(e.outcome)) && bseq.len() != hook_set_b.len() {
             v("hooks|must-run-violated|before", format!("{ctx}: step {k}: {} of {} before-hooks ran although none handled, stopped or failed", bseq.len(), hook_set_b.len()));
@@ -286,6 +292,11 @@ fn run_config(c: &Config) -> Vec<(String, String)> {
             for (i, e) in aseq.iter().enumerate() {
                 if e.outcome == Outcome::Handled && i + 1 != aseq.len() && !aseq[..i].iter().any(|x| x.outcome == Outcome::Stop) {
                     v("hooks|handled-did-not-short-circuit|after", format!("{ctx}: step {k}: {} after-hooks ran after one returned Handled", aseq.len() - i - 1));
+                }
+            }
+            for (i, e) in aseq.iter().enumerate() {
+                if e.outcome == Outcome::Stop && i + 1 != aseq.len() {
+                    v("hooks|stop-did-not-short-circuit|after", format!("{ctx}: step {k}: {} after-hooks ran after one had stopped execution", aseq.len() - i - 1));
                 }
             }
             if !b_handled && !aseq.iter().any(|e| terminator(e.outcome)) && aseq.len() != hook_set_a.len() {
